@@ -168,6 +168,8 @@ func logCrashBody(c *Case, o *Outcome) {
 				return nil
 			})
 		}()
+		// the poller's 100 ms ticker is anchored now; keep the driver off that grid
+		time.Sleep(377 * time.Microsecond)
 		return lv
 	}
 	cur := start(dir)
